@@ -20,6 +20,28 @@ fn viol(report: &Report, class: &str, pin: u32, seed: u32, ss: &[u8; 16], cs: &[
     });
 }
 
+/// One verification decision against the reference (also the per-case replayer of verify violations).
+pub fn check_verify(report: &Report, p: u32, s: u32, ss: &[u8; 16], cs: &[u8; 16], pr: &[u8; 20]) -> Option<bool> {
+    let want = pin_hash(p, s, ss, cs) == Some(*pr);
+    match catch(|| verify_client_pin_hash(p, s, ss, cs, pr)) {
+        Ok(got) => {
+            if got != want {
+                report.violation(Violation {
+                    signature: format!("C16|{}", if got { "verify-accepts-wrong-hash" } else { "verify-rejects-right-hash" }),
+                    scenario: "pin-verify".into(),
+                    replay: json!({"pin": p, "grid_seed": s, "server_salt": hex(ss), "client_salt": hex(cs), "presented": hex(pr)}),
+                    detail: json!({ "message": format!("presented {} -> {got}, expected {want}", hex(pr)) }),
+                });
+            }
+            Some(got)
+        }
+        Err(m) => {
+            viol(report, "panic", p, s, ss, cs, format!("verify_client_pin_hash panicked: {m}"));
+            None
+        }
+    }
+}
+
 pub fn check_hash(report: &Report, pin: u32, seed: u32, ss: &[u8; 16], cs: &[u8; 16]) -> bool {
     let want = pin_hash(pin, seed, ss, cs);
     match catch(|| calculate_hash(pin, seed, ss, cs)) {
@@ -291,19 +313,14 @@ pub fn run(tier: Tier, seed0: u64) -> i32 {
             presented.push(h);
         }
         for pr in presented {
-            let want = reference == Some(pr);
-            match catch(|| verify_client_pin_hash(p, s, &ss, &cs, &pr)) {
-                Ok(got) => {
-                    if got != want {
-                        viol(&report, if got { "verify-accepts-wrong-hash" } else { "verify-rejects-right-hash" }, p, s, &ss, &cs, format!("presented {} -> {got}, expected {want}", hex(&pr)));
-                    }
-                    if got {
-                        n_true.fetch_add(1, Ordering::Relaxed);
-                    } else {
-                        n_false.fetch_add(1, Ordering::Relaxed);
-                    }
+            match check_verify(&report, p, s, &ss, &cs, &pr) {
+                Some(true) => {
+                    n_true.fetch_add(1, Ordering::Relaxed);
                 }
-                Err(m) => viol(&report, "panic", p, s, &ss, &cs, format!("verify_client_pin_hash panicked: {m}")),
+                Some(false) => {
+                    n_false.fetch_add(1, Ordering::Relaxed);
+                }
+                None => {}
             }
             vcases.fetch_add(1, Ordering::Relaxed);
         }
